@@ -157,11 +157,13 @@ type Sim struct {
 	// handed to a caller changed afterwards (aliasing of reused buffers).
 	Exec func(api uint8, input string) (res string, raw string)
 
-	pools map[uintptr][]poolItem
-	conds map[uintptr][]*Task
-	clock int64   // accumulated jumps + sleeps, ns
-	bg    []*Task // library goroutines that outlived the run they were started in
-	chans map[uintptr]*chanState
+	pools   map[uintptr][]poolItem
+	conds   map[uintptr][]*Task
+	clock   int64   // accumulated jumps + sleeps, ns
+	bg      []*Task // library goroutines that outlived the run they were started in
+	chans   map[uintptr]*chanState
+	timers  []*TimerSpec
+	timerID int64
 
 	// per run
 	spec     *RunSpec
@@ -227,6 +229,15 @@ func takePending(i int) *Task { return pendingBG[i] }
 func clearPending() { pendingN = 0 }
 
 //go:norace
+func getPendingTN() int { return pendingTN }
+
+//go:norace
+func takePendingTimer(i int) *TimerSpec { return pendingTimers[i] }
+
+//go:norace
+func clearPendingT() { pendingTN = 0 }
+
+//go:norace
 func taskSteps(t *Task) int64 { return t.steps }
 
 // Run executes one run to completion (or deadlock / step bound).
@@ -282,6 +293,11 @@ func (s *Sim) Run(spec *RunSpec) *RunResult {
 		adopt(takePending(i))
 	}
 	clearPending()
+	for i := 0; i < getPendingTN(); i++ {
+		ts := takePendingTimer(i)
+		s.addTimer(ts, ts.Delay)
+	}
+	clearPendingT()
 	s.res.Background = len(s.tasks) - ncallers
 	s.initPolicy()
 	for _, t := range s.tasks[:ncallers] {
@@ -318,6 +334,7 @@ func (s *Sim) Run(spec *RunSpec) *RunResult {
 			s.fair = true
 		}
 		s.maybeFireTimer()
+		s.fireDueTimers()
 		t, budget := s.pick()
 		if t == nil {
 			if s.unfinishedCallers() == 0 {
@@ -533,6 +550,29 @@ func (s *Sim) handle(req request) {
 		t.state = stChanWait
 	case ReqChanMake:
 		delete(s.chans, req.addr)
+	case ReqTimerNew:
+		ts := req.val.(*TimerSpec)
+		s.addTimer(ts, req.n)
+		t.pend.n = ts.ID
+	case ReqTimerStop:
+		for _, ts := range s.timers {
+			if ts.ID == req.n {
+				if ts.Active {
+					t.pend.n = 1
+				}
+				ts.Active = false
+			}
+		}
+	case ReqTimerReset:
+		for _, ts := range s.timers {
+			if ts.ID == req.n {
+				if ts.Active {
+					t.pend.n = 1
+				}
+				ts.Active = true
+				ts.When = s.Now() + int64(req.addr)
+			}
+		}
 	case ReqCondWait:
 		t.state = stCondWait
 		t.blockAddr = req.addr
@@ -894,8 +934,74 @@ func (s *Sim) nextWake() (int64, bool) {
 			best, found = t.wakeAt, true
 		}
 	}
+	for _, ts := range s.timers {
+		if ts.Active && (!found || ts.When < best) {
+			best, found = ts.When, true
+		}
+	}
 	return best, found
 }
+
+func (s *Sim) addTimer(ts *TimerSpec, delay int64) {
+	s.timerID++
+	ts.ID = s.timerID
+	ts.When = s.Now() + delay
+	ts.Active = true
+	// drop dead one-shot timers now and then
+	if len(s.timers) > 256 {
+		live := s.timers[:0]
+		for _, x := range s.timers {
+			if x.Active {
+				live = append(live, x)
+			}
+		}
+		s.timers = live
+	}
+	s.timers = append(s.timers, ts)
+}
+
+// fireDueTimers delivers every timer whose time has come: a non-blocking
+// send of the current time on its channel (as the runtime does), or a new
+// task running the AfterFunc body.
+func (s *Sim) fireDueTimers() {
+	now := s.Now()
+	for _, ts := range s.timers {
+		if !ts.Active || ts.When > now {
+			continue
+		}
+		if ts.Period > 0 {
+			ts.When += ts.Period
+			if ts.When <= now {
+				ts.When = now + ts.Period
+			}
+		} else {
+			ts.Active = false
+		}
+		s.res.Faults.TimerFire++
+		if ts.Fn != nil {
+			fn := ts.Fn
+			nt := &Task{parent: -1, resume: make(chan reply)}
+			nt.body = func(*Task) { fn() }
+			nt.ID = len(s.tasks)
+			nt.prio = s.rng.Intn(1 << 20)
+			s.tasks = append(s.tasks, nt)
+			s.live = append(s.live, nt)
+			go taskMain(nt)
+			continue
+		}
+		if ts.Ch != 0 {
+			c := selCase{send: true, addr: ts.Ch, cap: ts.ChCap, val: TimeValue(now)}
+			cs := s.chanOf(c.addr, c.cap)
+			if !cs.closed && (len(cs.recvq) > 0 || len(cs.buf) < cs.cap) {
+				s.chanDo(c)
+			}
+		}
+	}
+}
+
+// TimeValue converts simulated nanoseconds to the value timers send; set by
+// package simtime (simrt itself does not import time).
+var TimeValue = func(ns int64) any { return ns }
 
 // advanceToNextWake: nothing is runnable but some task sleeps: discrete-event
 // jump of the simulated clock to the earliest wake-up.
